@@ -24,7 +24,8 @@ META = {
     "level_note": "Trusted: the gate hooks only delay goroutines; the harness's call/ran/ret events are emitted "
                   "before the call, inside the callback and after the return. 3-thread schedules are sampled in "
                   "quick and exhaustive (then shuffled, first 6000) in thorough; ThenCompose chains use random "
-                  "gate schedules.",
+                  "gate schedules (half of them with the holder completing the composed future directly) and "
+                  "every sequential order of 7 calls on a two-link chain (sampled in quick).",
     "technique": "TLA+ spec + TLC schedule enumeration, forced replay on real code, TLC trace validation",
 }
 
@@ -55,7 +56,8 @@ def run(ctx):
         json.dump(scheds, fh)
 
     ctx.harness("./c42", "TestSchedules", race=not ctx.quick,
-                env={"VERIF_COMPOSE": ctx.pick(150, 1500), "VERIF_STRESS": ctx.pick(200, 3000)})
+                env={"VERIF_COMPOSE": ctx.pick(150, 1500), "VERIF_STRESS": ctx.pick(200, 3000),
+                     "VERIF_SEQ": ctx.pick(400, 5040)})
     stats = json.load(open(ctx.path("stats.json")))
     need = ["fut.accept.locked", "fut.accept.pending", "fut.complete.locked",
             "fut.complete.first", "fut.complete.run"]
